@@ -305,8 +305,8 @@ def one_format(ctx, Time, drv, scale, fmt, t0, j1, j2, epochs):
     for i in range(n):
         case = {"scale": scale, "fmt": fmt, "value": str(vals[i]), "jd1": float(j1[i]), "jd2": float(j2[i])}
         a = ans[i]
-        if a == "err":
-            ctx.disagree(f"to_jds error channel ({fmt})", case, "err", "value")
+        if a in ("err", "overflow"):
+            ctx.disagree(f"to_jds error channel ({fmt})", case, a, "value")
             continue
         m1, m2 = (F(t) for t in a.split())
         # single-float forms that scale the value carry its relative rounding (≈1e-16 × 1e4..1e5 days)
@@ -717,6 +717,8 @@ def decimalyear_extras(ctx, Time, drv):
     from midgard.data import _time as T_
 
     rng = ctx.rng
+    if datetime.max.year != 9999 or datetime.min.year != 1:      # the constants `source_year2days` / `dyConstruct` use
+        ctx.disagree("datetime.min / datetime.max", {"fmt": "decimalyear"}, [1, 9999], [datetime.min.year, datetime.max.year])
     years = sorted(set([1, 2, 3, 4, 100, 400, 1582, 1600, 1700, 1800, 1899, 1900, 9998, 9999] + list(range(1955, 2030))
                        + [rng.randint(1, 9998) for _ in range(ctx.budget(40, 1500))]))
     for scale in SCALES:
@@ -742,11 +744,14 @@ def decimalyear_extras(ctx, Time, drv):
                     continue        # before the table the code extrapolates the 1961 drift; only the model is compared
                 if abs(got - (cal + F(ls, 86400))) > F(1, 10**11):
                     ctx.violate(f"year-length:{scale}", f"_year2days({y}, {scale!r}) = {float(got)!r}, the year has {cal} days and {ls} leap seconds", case)
-    # values outside the years datetime knows are refused (ValueError), the ends of the range are accepted
-    for v in (0.5, 0.999, -3.5, 10000.0, 10000.25, 12345.5, 1.5, 2.0, 9999.0, 9999.5, 9998.9999):   # not 1.0 … 1.4999: `_jd2dt` passes below datetime.min on its way (OverflowError; outside 1900..2100)
-        for scale in ("utc", "tt"):
-            if scale == "utc" and 1 <= v < 2:
-                continue     # see above: year 1 in UTC
+    # the domain of the constructor (model: `dyConstruct` / `dyAccepts`): years outside 1..9999 are a ValueError; the first
+    # twelve hours of year 1 and, in UTC, all of year 1 an OverflowError (datetime.min on the way); everything from 2.0 up
+    # to 10000.0 is accepted in every scale (`dy_accepts_range`) — same outcome in model and code at the edges
+    edge = [0.5, 0.999, -3.5, 10000.0, 10000.25, 12345.5, 1.0, 1 + 0.4 / 365, 1 + 0.6 / 365, 1.5, 1.999, 2.0, 2.5, 1900.0, 2100.0,
+            9998.0, 9998.9999, 9999.0, 9999.5, 9999.99999]
+    for scale in SCALES:
+        ans = drv.ask([f"c02 tojds decimalyear {scale} {rs(frac(v))} -" for v in edge])
+        for v, a in zip(edge, ans):
             case = {"scale": scale, "fmt": "decimalyear", "value": v}
             ctx.case([scale, "decimalyear-range", v], nontrivial=True)
             try:
@@ -754,13 +759,17 @@ def decimalyear_extras(ctx, Time, drv):
                 r = ("ok", frac(float(t.jd1)) + frac(float(t.jd2)))
             except ValueError:
                 r = ("err",)
+            except OverflowError:
+                r = ("overflow",)
             except Exception as e:
                 ctx.violate("decimalyear-raises", f"Time({v}, fmt='decimalyear') raised {type(e).__name__}: {e}", case)
                 continue
-            a = drv.ask1(f"c02 tojds decimalyear {scale} {rs(frac(v))} -")
-            ctx.count(f"decimalyear-range:{r[0]}")
-            if (a == "err") != (r[0] == "err") or (r[0] == "ok" and abs(sum(F(x) for x in a.split()) - r[1]) > F(3, 10**10)):
-                ctx.disagree("to_jds (decimalyear) at the ends of the year range", case, a, [str(x) for x in r])
+            ctx.count(f"decimalyear-range:year-{min(max(int(v), 0), 10000) if not 3 <= int(v) <= 9997 else 'inside'}:{scale if int(v) == 1 else 'any'}:{r[0]}")
+            m = (a,) if a in ("err", "overflow") else ("ok", sum(F(x) for x in a.split()))
+            if m[0] != r[0] or (r[0] == "ok" and abs(m[1] - r[1]) > max(F(3, 10**10), abs(r[1]) / 2**51)):     # two ulp of the single-float jd
+                ctx.disagree("decimalyear constructor: accepted / refused at the ends of the year range", case, [str(x) for x in m], [str(x) for x in r])
+            if 2 <= v < 10000 and r[0] != "ok":
+                ctx.violate("decimalyear-refused", f"Time({v}, fmt='decimalyear', scale={scale!r}) is refused ({r[0]})", case)
     # around the end of a year that ends in a leap second, in UTC and TAI: the round trip stays within the resolution
     for y in (1972, 2005, 2008, 2015, 2016, 2017):
         d0 = (datetime(y + 1, 1, 1) - DT2000).days
